@@ -220,7 +220,7 @@ func runGated(c *caseIn, out *caseOut) {
 			default:
 				made[d] = calls[d]
 			}
-		case <-time.After(wait):
+		case <-time.After(hangWait(wait)):
 			hung = true
 			atomic.AddInt32(&gatedHangs, 1)
 		}
@@ -242,7 +242,7 @@ func runGated(c *caseIn, out *caseOut) {
 	if !hung {
 		select {
 		case <-fdone:
-		case <-time.After(5 * time.Second):
+		case <-watchdog(5 * time.Second):
 			hung = true
 			atomic.AddInt32(&gatedHangs, 1)
 		}
@@ -427,7 +427,7 @@ func runDuplex(c *caseIn, out *caseOut) {
 		}
 		close(readGo)
 	}()
-	deadline := time.After(20 * time.Second)
+	deadline := watchdog(20 * time.Second)
 	var ra, rb res
 	okA, okB, fwd := false, false, 0
 	for !(okA && okB && fwd == 2) {
@@ -536,14 +536,17 @@ func runFwdCut(c *caseIn, out *caseOut) {
 	hung := false
 	select {
 	case pr = <-pdone:
-	case <-time.After(15 * time.Second):
+	case <-watchdog(15 * time.Second):
 		hung = true
 	}
 	if !hung {
 		select {
 		case <-fdone:
-		case <-time.After(15 * time.Second):
+		case <-watchdog(15 * time.Second):
 			hung = true
+			if pr.err == nil {
+				out.fail("stream-end-not-delivered", "the peer FrameStream wrote its %d-byte answer and its Close() returned, but the forwarder's FrameStream.Read never saw end-of-stream (forwarder still running at the watchdog)", len(bytes.Join(resp, nil)))
+			}
 		}
 	}
 	xa.Close()
@@ -684,7 +687,7 @@ func runHalfClose(c *caseIn, out *caseOut) {
 			// forwarder does at that moment; the delay only affects what a broken forwarder gets the chance to break)
 			select {
 			case <-remote.ended:
-			case <-time.After(10 * time.Second):
+			case <-watchdog(10 * time.Second):
 			}
 			time.Sleep(40 * time.Millisecond)
 			appWriteErr = writeAll(app, upData)
@@ -709,14 +712,14 @@ func runHalfClose(c *caseIn, out *caseOut) {
 	hung := false
 	select {
 	case <-done:
-	case <-time.After(20 * time.Second):
+	case <-watchdog(20 * time.Second):
 		hung = true
 	}
 	var pr, ar res
 	if !hung {
 		select {
 		case pr = <-peerGot:
-		case <-time.After(15 * time.Second):
+		case <-watchdog(15 * time.Second):
 			hung = true
 		}
 	}
@@ -727,7 +730,7 @@ func runHalfClose(c *caseIn, out *caseOut) {
 		}
 		select {
 		case <-fdone:
-		case <-time.After(15 * time.Second):
+		case <-watchdog(15 * time.Second):
 			hung = true
 		}
 	}
